@@ -11,6 +11,7 @@ import (
 	"unicode/utf8"
 
 	"reflect"
+	"runtime"
 	"time"
 
 	"github.com/tyler-sommer/stick"
@@ -296,13 +297,32 @@ func filterJoin(ctx stick.Context, val stick.Value, args ...stick.Value) stick.V
 
 func filterJSONEncode(ctx stick.Context, val stick.Value, args ...stick.Value) stick.Value {
 	// TODO: implement flags
-	jsonData, err := json.Marshal(val)
+	jsonData, err := marshalJSON(val)
 	if err != nil {
 		// TODO: Report error
 		return nil
 	}
 
 	return string(jsonData)
+}
+
+// marshalJSON is json.Marshal for any value. A value, or a value inside it,
+// may have its MarshalJSON or MarshalText promoted from an embedded pointer or
+// interface that is nil (struct{ *time.Time }{}): encoding/json calls the
+// method and lets the nil dereference through. Such a value cannot be
+// marshalled, which is an error like any other; a panic that is no run-time
+// error is the method's own and is passed on.
+func marshalJSON(val stick.Value) (data []byte, err error) {
+	defer func() {
+		if r := recover(); r != nil {
+			re, ok := r.(runtime.Error)
+			if !ok {
+				panic(r)
+			}
+			data, err = nil, fmt.Errorf("json_encode: %v", re)
+		}
+	}()
+	return json.Marshal(val)
 }
 
 func filterKeys(ctx stick.Context, val stick.Value, args ...stick.Value) stick.Value {
